@@ -127,6 +127,65 @@ Definition stable (c : gctx) (P : list sv -> nat -> gx -> Prop) : Prop :=
 Definition frameOK (sc : list frame) (cur base : nat) : Prop :=
   (forall k, index_of sc (cur, k) = Some (base + k)) /\ (forall y a, index_of sc y = Some a -> fst y <= cur).
 
+(* a frame of a new scope pushed on top: the older scopes are found through its outer link *)
+Lemma index_of_push : forall id off rpc stamp sc y, fst y <> id ->
+  index_of (Frame id off rpc stamp sc sc :: sc) y = index_of sc y.
+Proof.
+  intros id off rpc stamp sc y H. simpl. destruct (Nat.eqb_spec id (fst y)); [congruence|]. destruct sc; reflexivity.
+Qed.
+Lemma frameOK_top : forall sc cur base, frameOK sc cur base -> exists i o p s sv out r, sc = Frame i o p s sv out :: r /\ i <= cur.
+Proof.
+  intros sc cur base [H1 H2]. destruct sc as [|[i o p s sv out] r]; [specialize (H1 0); discriminate|].
+  exists i, o, p, s, sv, out, r. split; [reflexivity|].
+  apply (H2 (i, 0) (o + 0)). simpl. rewrite Nat.eqb_refl. reflexivity.
+Qed.
+Lemma outer_of_self : forall sc cur base sn, frameOK sc cur base -> cur < sn -> outer_of sc sn sc = sc.
+Proof.
+  intros sc cur base sn H Hlt. destruct (frameOK_top _ _ _ H) as (i & o & p & s & sv & out & r & -> & Hi).
+  simpl. destruct (Nat.eqb_spec i sn); [lia|reflexivity].
+Qed.
+Lemma frameOK_push : forall sc cur base sn off rpc stamp, frameOK sc cur base -> cur < sn ->
+  frameOK (Frame sn off rpc stamp sc sc :: sc) sn off.
+Proof.
+  intros sc cur base sn off rpc stamp [H1 H2] Hlt. split.
+  - intros k. simpl. rewrite Nat.eqb_refl. reflexivity.
+  - intros y a Hy. destruct (Nat.eq_dec (fst y) sn) as [E|E]; [lia|].
+    rewrite index_of_push in Hy by exact E. apply H2 in Hy. lia.
+Qed.
+Lemma index_of_push_ok : forall sc cur base sn off rpc stamp y a, frameOK sc cur base -> cur < sn ->
+  index_of sc y = Some a -> index_of (Frame sn off rpc stamp sc sc :: sc) y = Some a.
+Proof.
+  intros sc cur base sn off rpc stamp y a H Hlt Hy. rewrite index_of_push; [exact Hy|].
+  apply (proj2 H) in Hy. lia.
+Qed.
+Lemma envOK_push : forall sc cur base sn off rpc stamp ce rho vs vs' n0 lim, frameOK sc cur base -> cur < sn ->
+  envOK sc ce rho vs n0 lim -> (forall a, a < lim -> nth_error vs' a = nth_error vs a) ->
+  envOK (Frame sn off rpc stamp sc sc :: sc) ce rho vs' n0 lim.
+Proof.
+  intros sc cur base sn off rpc stamp ce rho vs vs' n0 lim H Hlt [Hv Hl] Hn. split.
+  - intros x y Hx. destruct (Hv _ _ Hx) as (a & w & Ha & Hk & Hw & Hnth). exists a, w.
+    split; [eapply index_of_push_ok; eauto|]. split; [auto|]. split; [auto|]. rewrite Hn; auto.
+  - intros l y Hx. destruct (Hl _ _ Hx) as (a & id & Ha & Hk & Hnth & Hid). exists a, id.
+    split; [eapply index_of_push_ok; eauto|]. split; [auto|]. split; [rewrite Hn; auto|auto].
+Qed.
+Lemma kept_push : forall sc cur base sn off rpc stamp ce rho vs n0 lim i, frameOK sc cur base -> cur < sn ->
+  envOK sc ce rho vs n0 lim -> kept (Frame sn off rpc stamp sc sc :: sc) ce i -> kept sc ce i.
+Proof.
+  intros sc cur base sn off rpc stamp ce rho vs n0 lim i H Hlt [Hv Hl] [(x & y & Hx & Hi)|(l & y & Hx & Hi)].
+  - destruct (Hv _ _ Hx) as (a & w & Ha & _). pose proof (index_of_push_ok _ _ _ sn off rpc stamp _ _ H Hlt Ha) as E.
+    rewrite E in Hi. inversion Hi; subst. left. eauto.
+  - destruct (Hl _ _ Hx) as (a & w & Ha & _). pose proof (index_of_push_ok _ _ _ sn off rpc stamp _ _ H Hlt Ha) as E.
+    rewrite E in Hi. inversion Hi; subst. right. eauto.
+Qed.
+Lemma encR_push : forall sc cur base sn off rpc stamp ce rho vs0 n0 lim vs fin e, frameOK sc cur base -> cur < sn ->
+  envOK sc ce rho vs0 n0 lim -> encR (Frame sn off rpc stamp sc sc :: sc) ce vs fin e -> encR sc ce vs fin e.
+Proof.
+  intros sc cur base sn off rpc stamp ce rho vs0 n0 lim vs fin e H Hlt [Hv Hl] HE. destruct fin as [[e0|l]|]; cbn [encR] in *; auto.
+  destruct HE as (y & k & id & Hk & Hi & Hn & E). exists y, k, id.
+  destruct (Hl _ _ Hk) as (a & id' & Ha & _). pose proof (index_of_push_ok _ _ _ sn off rpc stamp _ _ H Hlt Ha) as E0.
+  rewrite E0 in Hi. inversion Hi; subst. auto.
+Qed.
+
 Definition Impl (q : query) : Prop :=
   forall sc cur base, frameOK sc cur base ->
   forall ce pc nv sn cq nv' sn', comp q ce cur pc nv sn = Some (cq, nv', sn') -> code_at pc cq ->
